@@ -2327,6 +2327,35 @@ fn audit_corpus() -> Vec<(&'static str, usize, Option<ConnectionConfig>, Option<
         hist.push(Step::In(Inp::Cmd(Cmd::Get("n".into()))));
         hist.push(Step::In(Inp::Exec(vec![])));
         v.push(("history:twelve-transactions", shards, None, None, hist));
+        // --- class 3 / arithmetic edge: the snapshot comparison must look at EVERY byte of a long
+        // value: a watched string of 1 … 70 000 bytes is replaced by one of the SAME length that
+        // differs in exactly one byte — the first, the middle, the last (a comparison that stops
+        // after a prefix, a length-only comparison, a hash of a prefix all miss some of these).
+        // Self-test: `resp_values_equal` comparing the first 4096 bytes only was missed before.
+        let mut long = Vec::new();
+        for len in [1usize, 2, 64, 4095, 4096, 4097, 8192, 16384, 65536, 70000] {
+            let base: Vec<u8> = (0..len).map(|i| b'a' + (i % 23) as u8).collect();
+            let mut poss = vec![0, len / 2, len - 1];
+            poss.dedup();
+            for pos in poss {
+                let mut changed = base.clone();
+                changed[pos] = b'Z';
+                long.push(Step::Other(Cmd::Set("k".into(), base.clone())));
+                long.push(Step::In(Inp::Watch(vec!["k".into()])));
+                long.push(Step::Other(Cmd::Set("k".into(), changed)));
+                long.push(Step::In(Inp::Multi));
+                long.push(Step::In(Inp::Cmd(Cmd::Incr("n".into()))));
+                long.push(Step::In(Inp::Exec(vec![])));
+            }
+            // … and the same value written again is NO change
+            long.push(Step::Other(Cmd::Set("k".into(), base.clone())));
+            long.push(Step::In(Inp::Watch(vec!["k".into()])));
+            long.push(Step::Other(Cmd::Set("k".into(), base.clone())));
+            long.push(Step::In(Inp::Multi));
+            long.push(Step::In(Inp::Cmd(Cmd::Incr("n".into()))));
+            long.push(Step::In(Inp::Exec(vec![])));
+        }
+        v.push(("alphabet:long-watched-value-differs-in-one-byte", shards, None, None, long));
     }
     v
 }
@@ -2654,6 +2683,22 @@ fn xcorpus() -> Vec<(Vec<XStep>, Option<(&'static str, &'static str)>)> {
         // … and in a one-member sorted set
         (vec![c(Cmd::Zadd("ab".into(), 10, b("alice"))), XStep::Watch(vec!["ab".into()]), c(Cmd::Zadd("ab".into(), 11, b("alice"))), XStep::Multi, c(Cmd::Set("w".into(), b("x"))), XStep::Exec],
          Some(("C05:x:watch:zset-score-only-change-detected", "$-"))),
+        // a long watched string replaced by one of the same length that differs in ONE byte
+        // (first / middle / last), lengths around every plausible internal limit
+        ({
+            let mut v = Vec::new();
+            for len in [1usize, 2, 64, 4095, 4096, 4097, 8192, 65536, 70000] {
+                let base: Vec<u8> = (0..len).map(|i| b'a' + (i % 23) as u8).collect();
+                let mut poss = vec![0, len / 2, len - 1];
+                poss.dedup();
+                for pos in poss {
+                    let mut changed = base.clone();
+                    changed[pos] = b'Z';
+                    v.extend([c(Cmd::Set("k".into(), base.clone())), XStep::Watch(vec!["k".into()]), c(Cmd::Set("k".into(), changed)), XStep::Multi, c(Cmd::Incr("n".into())), XStep::Exec]);
+                }
+            }
+            v
+        }, Some(("C05:x:watch:one-byte-change-of-a-long-value-detected", "$-"))),
     ]
 }
 
